@@ -131,14 +131,21 @@ func runC09(w *World, r *Report, tier string) {
 	n := kr.emit(w, r, []string{"ROUND", "FLOOR-NOBIAS"}, cl)
 	ashiftRule(w, r)
 	// ROUND-AGREE summary obligation
-	bad := 0
+	bad, open := 0, 0
 	for _, o := range r.Obls {
-		if (o.Rule == "ROUND" || o.Rule == "ASHIFT") && !o.Canary && o.Status != Discharged {
-			bad++
+		if (o.Rule == "ROUND" || o.Rule == "ASHIFT") && !o.Canary {
+			switch o.Status {
+			case Violated:
+				bad++
+			case Undecided, Unresolved:
+				open++
+			}
 		}
 	}
-	if bad == 0 {
+	if bad == 0 && open == 0 {
 		r.add("ROUND-AGREE", "all vertical rounding sites", "-", Discharged, "all "+itoa(n)+" rounding sites are FLOOR")
+	} else if bad == 0 {
+		r.add("ROUND-AGREE", "all vertical rounding sites", "-", Undecided, itoa(open)+" rounding site(s) could not be classified")
 	} else {
 		r.add("ROUND-AGREE", "all vertical rounding sites", "-", Violated, itoa(bad)+" rounding site(s) are not FLOOR: point lookup, zoom change and merge would disagree below ground")
 	}
